@@ -672,6 +672,14 @@ theorem graceInv_simInv (G : Nat) (sp0 : Sp) :
       exact h.2.quiet (s := x.st) ⟨new, hl⟩ b hq.1.normal hq.1.high hq.1.urgent hq.1.timer
         (by have := congrArg Sp.cs a; exact this)
     · exact h.2
+  clone := fun x f h => by
+    refine ⟨(runInv_simInv sp0).clone x f h.1, ?_⟩
+    let s0 : St := { x.st with waiters := x.st.waiters ++ [{ id := x.nextWaiter, done := f }] }
+    have hq := quiet_pollWaiter s0 x.nextWaiter
+    obtain ⟨a, b⟩ := pollWaiter_absfx s0 x.nextWaiter
+    obtain ⟨_, new, hl, _⟩ := ext_pollWaiter s0 x.nextWaiter
+    exact h.2.quiet (s := x.st) ⟨new, hl⟩ b hq.1.normal hq.1.high hq.1.urgent hq.1.timer
+      (by have := congrArg Sp.cs a; exact this)
 
 
 /-- an operation script whose controls are all gentle with grace periods of at least `G` -/
